@@ -49,7 +49,23 @@ Definition run_c08_fault (schemas : list (string * schema)) (hc : hconf) (live m
   | Some live, Some mobs, Some op, Some k, Some out, Some same =>
       let c := make_config schemas hc (Some (Z.to_nat k)) false (fun l => l) in
       let model := model_step c live (managed_of mobs) op in
-      mkOut (chk (match model with UErr EOther => true | _ => false end)
+      (* Go visits managers and versions in map order, the model in sorted order, so the
+         two runs need not make the same number of conversions: when the model makes fewer
+         than k+1 calls its result is the clean one *)
+      let clean := model_step (make_config schemas hc None false (fun l => l)) live (managed_of mobs) op in
+      let same_as_clean :=
+        match model, clean with
+        | UOk (o1, m1), UOk (o2, m2) =>
+            opt_eqb tv_eqb o1 o2 && Nat.eqb (List.length m1) (List.length m2) &&
+            forallb (fun mr : string * mrec =>
+                       match mf_get (fst mr) m2 with
+                       | Some r => ps_equals (mr_set (snd mr)) (mr_set r) && String.eqb (mr_ver (snd mr)) (mr_ver r)
+                       | None => false
+                       end) m1
+        | UErr (EConflict a), UErr (EConflict b) => conflicts_same a b
+        | _, _ => false
+        end in
+      mkOut (chk (match model with UErr EOther => true | _ => same_as_clean end)
                  "corr the model reports the injected conversion failure as an error" @@
              chk (match out with HErr => true | _ => false end)
                  "prop C08 a conversion failure surfaces as an error with no object returned" @@
